@@ -3003,4 +3003,3 @@ func errorRecordedWhere(fn *ssa.Function, fi *FactInfo, isErr func(ssa.Value) bo
 	}
 	return false
 }
-
